@@ -206,12 +206,14 @@ func (m *refModel) capacity() capEst {
 // ---- one history on a fresh shedder ----
 
 type histResult struct {
-	key    string
-	info   string
-	active int // Allow decisions taken with the overload branch active (cpu over / cool-off) and requests in flight
-	sheds  int
-	err    string
-	class  string
+	key      string
+	info     string
+	active   int // Allow decisions taken with the overload branch active (cpu over / cool-off) and requests in flight
+	sheds    int
+	must     int // Allow decisions for which the statement demands a shed (oracle 2 premise held)
+	hotSheds int // sheds decided with the CPU under the threshold (cool-off carry-over)
+	err      string
+	class    string
 }
 
 var cpuOverNow bool // answer of the injected systemOverloadChecker (history engine)
@@ -227,6 +229,8 @@ type histRun struct {
 	nshed    int
 	nadmit   int
 	active   int
+	must     int
+	hotSheds int
 	step     int
 	trail    []OpDef
 }
@@ -302,8 +306,14 @@ func (h *histRun) allow(over bool) bool {
 	if !shed && p == nil {
 		return h.fail("allow-nil-promise", "Allow returned neither a promise nor an error")
 	}
+	if !h.disabled && over && float64(before) > hi*(1+eps) && m.ema > hi*(1+eps) {
+		h.must++
+	}
 	if shed {
 		h.nshed++
+		if !over {
+			h.hotSheds++
+		}
 		switch {
 		case h.disabled:
 			return h.fail("disabled-shedder-sheds", "%s was shed although load.Disable() was called before NewAdaptiveShedder (%d in flight)", name, before)
@@ -469,7 +479,7 @@ func runHistory(c histCfg, disabled bool, ops []OpDef, verbose bool) histResult 
 		}
 	}
 	h.res.key, h.res.info = h.stateKey()
-	h.res.active, h.res.sheds = h.active, h.nshed
+	h.res.active, h.res.sheds, h.res.must, h.res.hotSheds = h.active, h.nshed, h.must, h.hotSheds
 	if verbose {
 		fmt.Printf("  state: %s\n", h.res.info)
 	}
